@@ -1,6 +1,7 @@
 import CacheVerif.Proofs.CacheRefine
 import CacheVerif.Proofs.Twin
 import CacheVerif.Proofs.ConcCacheLin
+import CacheVerif.Proofs.DeepSource
 /-!
 # C09 — expiration instants are computed and reported exactly as the TTL dictates
 
@@ -134,6 +135,32 @@ theorem C09_default_isolated (s : St K V) (d : Int) :
 
 /-- the generic twin computes the same -/
 theorem C09_twin (s : CSt K V) (op : Op K V) : CacheOf.step s op = Cache.step s op := Proofs.Twin.step_eq s op
+
+
+/-! ### For the source text -/
+
+/-- **C09 for the text of `Set` (and `expiration`) in both files**: after `Set(k, v, d)` the entry's instant is
+`now + d` for `d > 0`, `now + default` for `d = DefaultExpiration` with a positive default in force, and
+"never" (0) otherwise - computed by the interpreter from the generated syntax of `Set`, `expiration` and
+`DefaultExpiration`. -/
+theorem C09_source_set (s : CSt K V) (k : K) (v : V) (d : Int) (T : Deep.Twin K V)
+    (hT : DeepSource.IsTwin T) :
+    ∃ s' r, Deep.deepStep T s (.set k v d) = some (s', r) ∧
+      s'.items.get k = some ⟨v, TTL.expiration d s.dflt s.now⟩ := by
+  have h : (Cache.step s (.set k v d)).1.items.get k = some ⟨v, TTL.expiration d s.dflt s.now⟩ := by
+    simp [Cache.step, Cache.set, AMap.store, AMap.get_set, expiration_eq']
+  exact ⟨_, _, DeepSource.step s _ T hT, h⟩
+
+/-- a user function that takes time: the entry stored by `GetOrCompute` on an absent key lives `d` from the moment
+the function returned (`δ` after the call began), in the text of both files -/
+theorem C09_source_slow_loader (s : CSt K V) (k : K) (f : V) (d : Int) (δ : Nat) (ha : s.items.get k = none)
+    (T : Deep.Twin K V) (hT : DeepSource.IsTwin T) :
+    ∃ s' r, Deep.deepStep T s (.getOrComputeSlow k f d δ) = some (s', r) ∧
+      s'.now = s.now + δ ∧ s'.items.get k = some ⟨f, TTL.expiration d s.dflt (s.now + δ)⟩ := by
+  have h : (Cache.step s (.getOrComputeSlow k f d δ)).1.now = s.now + δ ∧
+      (Cache.step s (.getOrComputeSlow k f d δ)).1.items.get k = some ⟨f, TTL.expiration d s.dflt (s.now + δ)⟩ := by
+    simp [Cache.step, AMap.compute, ha, AMap.get_set, Cache.expiration, Proofs.LeafCache.expiration_eq]
+  exact ⟨_, _, DeepSource.step s _ T hT, h⟩
 
 /-! ### Non-vacuity -/
 example : Gen.expiration (-1) 50 1000 = 0 ∧ Gen.expiration 0 50 1000 = 0 ∧ Gen.expiration 1 50 1000 = 1001 ∧
